@@ -39,4 +39,5 @@ def alpha_cases(ctx, alpha, exh_len, n_random, lo, hi, tols=(0, 1), tag='alpha')
     strs += list(gen.exhaustive(CORE_ALPHA, ctx.pick(4, 5), 4))
     strs += list(gen.random_strings(ctx.rng(tag + '/env'), ENV_ALPHA, n_random // 2, 4, 9))
     strs += gen.padded_env_docs()
+    strs += gen.long_arg_runs()
     return [(s, t, ()) for s in strs for t in tols]
